@@ -303,7 +303,7 @@ def check_sld(case):
             ans = it.query(q[0], q[1])
             if it.floundered:
                 return Outcome(inconclusive="flounder", features=sorted(feats))
-            fragile = any(not ref.order_robust(proofs) for _k, proofs in it.findall_log)
+            fragile = any(not ref.order_robust(proofs, uses) for _k, proofs, uses in it.findall_log)
             refs.append(([ref.canonical(a) for a in ans], fragile))
             any_dup = any_dup or it.dup_call
             any_fragile = any_fragile or fragile
@@ -448,8 +448,26 @@ def render(case):
     return {"program": ref.render_program(case["prog"]), "queries": [ref.render_atom(q) for q in case["queries"]]}
 
 
+def findall_node_order(case, failure=None):
+    """Class of the finding 'findall/3 orders its solutions by the largest node id of their proofs': the reference
+    evaluation of some query of the case runs a findall whose solutions do NOT all end in a proof leaf of their own
+    (see ref.order_robust), so the node order can differ from the SLD order."""
+    prog = case["prog"]
+    try:
+        for q in case["queries"]:
+            it = ref.Interp(prog, budget=30000, max_depth=120)
+            it.track_proofs = True
+            it.query(q[0], q[1])
+            if any(not ref.order_robust(proofs, uses) for _k, proofs, uses in it.findall_log):
+                return True
+    except ref.Budget:
+        return False
+    return False
+
+
 KNOWN_CLASSES = {
     "shared_var_call": lambda case, failure: shared_var_call(case),
+    "findall_node_order": findall_node_order,
 }
 
 SUBCHECKS = [
